@@ -279,6 +279,26 @@ func checkUnmarshalPlumbing(p *Prog, r *Report, prefix string) {
 			r.bad(prefix+".plumbing", name+":loops", p.pos(f.Pos()), "cannot find the loops over the payload's attributes and relationships")
 			continue
 		}
+		// the decoded skeleton is read, never written: what json.Unmarshal put
+		// into it is what gets stored
+		nSk := 0
+		eachInstrOf(scope, func(ins ssa.Instruction) {
+			st, ok := ins.(*ssa.Store)
+			if !ok {
+				return
+			}
+			fa, ok := st.Addr.(*ssa.FieldAddr)
+			if !ok {
+				return
+			}
+			if o, fl := fieldRef(fa.X, fa.Field); o == "resourceSkeleton" || o == "relationshipSkeleton" {
+				nSk++
+				r.bad(prefix+".plumbing", name+":skeleton-write:"+fl, p.pos(st.Pos()), "the decoded payload's "+fl+" is overwritten before it is used (trimmed, normalised, defaulted): the value that comes back is not the value that was sent")
+			}
+		})
+		if nSk == 0 {
+			r.ok(prefix+".plumbing", name+":skeleton-read-only", p.pos(f.Pos()), "no store into a field of the decoded skeleton")
+		}
 		// fresh linkage variables
 		nLink := 0
 		eachInstrOf(scope, func(ins ssa.Instruction) {
